@@ -250,6 +250,9 @@ def relations(rng, tier, rpt):
             if v != single[l]:
                 rep("result differs in a fresh interpreter", l, single[l], v)
     rpt.extra["fresh_interpreter_observations"] = n_fresh
+    # (b') order independence over the whole catalogue of public-API observations (harness/c15_catalogue.py): every entry's result as
+    # the first call of a fresh interpreter is the reference; random histories (fresh interpreter each) and threaded runs must reproduce it
+    bad += _order_independence(rng, tier, rpt)
     # (c) caller-supplied mutable arguments are not mutated
     elems = [0, 2**31, 5]
     e0 = list(elems)
@@ -268,3 +271,68 @@ def relations(rng, tier, rpt):
         if a != b:
             rep("caller-supplied list mutated by " + name, str(b), str(a), str(b))
     return bad[:8]
+
+
+def _cat(names, threads=0):
+    cmd = [sys.executable, "-m", "harness.c15_catalogue"] + (["--threads", str(threads)] if threads else []) + [json.dumps(names)]
+    p = subprocess.run(cmd, stdout=subprocess.PIPE, stderr=subprocess.PIPE, text=True, timeout=600, cwd=VERIF,
+                       env=dict(os.environ, PYTHONPATH=VERIF + ":/repo", PYTHONDONTWRITEBYTECODE="1"))
+    if p.returncode != 0:
+        raise RuntimeError("catalogue run failed: " + p.stderr[-400:])
+    return json.loads(p.stdout.strip().split("\n")[-1])
+
+
+def _order_independence(rng, tier, rpt):
+    from concurrent.futures import ThreadPoolExecutor
+    bad = []
+    names = json.loads(subprocess.run([sys.executable, "-m", "harness.c15_catalogue", "--list"], stdout=subprocess.PIPE, text=True, cwd=VERIF,
+                                      env=dict(os.environ, PYTHONPATH=VERIF + ":/repo")).stdout)
+    with ThreadPoolExecutor(16) as ex:
+        ref = dict(zip(names, [r[0] for r in ex.map(lambda n: _cat([n]), names)]))
+        n_hist = 24 if tier == "quick" else 400
+        hists = []
+        for h in range(n_hist):
+            k = rng.choice([6, 12, 25, 40])
+            hs = [rng.choice(names) for _ in range(k)]
+            if h % 3 == 0:       # some histories are permutations of the whole catalogue
+                hs = rng.sample(names, len(names))
+            hists.append(hs)
+        outs = list(ex.map(_cat, hists))
+        # the option toggles are documented process-wide switches: a thread that flips one is visible to the others while it is set,
+        # so the threaded runs leave the toggle entries out (they are covered by the sequential histories: set, observe, restore)
+        quiet = [n for n in names if not n.startswith("toggle.")]
+        thr = [rng.sample(quiet, len(quiet)) for _ in range(3 if tier == "quick" else 30)]
+        touts = list(ex.map(lambda hs: _cat(hs, 4), thr))
+
+    def minimise(hs, j):
+        """smallest history (in the fresh-interpreter sense) on which entry hs[j] still departs from its reference"""
+        target = hs[j]
+        for x in dict.fromkeys(hs[:j]):
+            if _cat([x, target])[1] != ref[target]:
+                return [x, target]
+        pre = list(hs[:j])
+        i = 0
+        while i < len(pre):
+            cand = pre[:i] + pre[i + 1:]
+            if _cat(cand + [target])[-1] != ref[target]:
+                pre = cand
+            else:
+                i += 1
+        return pre + [target]
+
+    seen = set()
+    for kind, runs, results in (("after a history of other calls", hists, outs), ("when issued concurrently from 4 threads", thr, touts)):
+        for hs, out in zip(runs, results):
+            for j, (n, o) in enumerate(zip(hs, out)):
+                if o != ref[n] and n not in seen:
+                    seen.add(n)
+                    small = minimise(hs, j) if kind.startswith("after") else hs
+                    bad.append({"property": "C15", "entry_point": n, "request_lines": [], "catalogue_history": small,
+                                "replay_cmd": "cd /verif && PYTHONPATH=/verif:/repo /venv/bin/python -m harness.c15_catalogue '%s'" % json.dumps(small),
+                                "relation": "catalogue entry %s gives a different result %s than as the first call of a fresh interpreter" % (n, kind),
+                                "impl_output": o[:300], "model_output": ref[n][:300], "no_failing_input": False})
+    rpt.extra["catalogue_entries"] = len(names)
+    rpt.extra["catalogue_histories"] = len(hists)
+    rpt.extra["catalogue_history_observations"] = sum(len(h) for h in hists)
+    rpt.extra["catalogue_threaded_observations"] = sum(len(h) for h in thr)
+    return bad[:6]
